@@ -37,6 +37,40 @@ def run(A, R: Report, thorough: bool):
 
     # ---- R16.1
     R.rule('R16.1', 'every parameter after self is bound by name: positional i -> args[i-1] while i-1 < len(args); defaults only when absent; positionals cleared; binding dict is per call', floor=2)
+    # the binding must be built in objects created by this call: `decorated` may not mutate anything it closes over
+    bound_names = A.typer._binding_names(fdec)
+    aliases = {}
+    for n in A.typer.own_nodes(fdec):
+        if isinstance(n, ast.Assign) and len(n.targets) == 1 and isinstance(n.targets[0], ast.Name) and isinstance(n.value, ast.Name):
+            aliases[n.targets[0].id] = n.value.id
+        elif isinstance(n, ast.Assign) and isinstance(n.targets[0], ast.Tuple) and isinstance(n.value, ast.Tuple):
+            for te, ve in zip(n.targets[0].elts, n.value.elts):
+                if isinstance(te, ast.Name) and isinstance(ve, ast.Name):
+                    aliases[te.id] = ve.id
+
+    def origin(nm, depth=0):
+        while nm in aliases and depth < 5:
+            nm = aliases[nm]
+            depth += 1
+        return nm
+
+    shared = []
+    for n in A.typer.own_nodes(fdec):
+        tgt = None
+        if isinstance(n, ast.Call) and isinstance(n.func, ast.Attribute) and n.func.attr in ('update', 'setdefault', 'pop', 'clear', 'append', 'extend', '__setitem__') and isinstance(n.func.value, ast.Name):
+            tgt = n.func.value.id
+        elif isinstance(n, ast.Subscript) and isinstance(n.ctx, ast.Store) and isinstance(n.value, ast.Name):
+            tgt = n.value.id
+        if tgt is None:
+            continue
+        o = origin(tgt)
+        if o not in bound_names or (o in aliases.values() and o not in fdec.params and o not in bound_names):
+            shared.append((n, tgt, o))
+        elif o != tgt and o not in fdec.params and not any(isinstance(x, ast.Assign) and any(src(t) == o for t in x.targets) for x in A.typer.own_nodes(fdec)):
+            shared.append((n, tgt, o))
+    R.check(not shared, 'R16.1', 'cached.decorated: per-call binding', key_of('shared-binding', sorted({o for _, _, o in shared})), 'only per-call objects are mutated',
+            f'`{src(shared[0][0])[:60]}` mutates `{shared[0][2]}`, which is created once per decorated method and shared by all calls: arguments of one call become the "defaults" of later calls' if shared else '',
+            where=where(fdec, shared[0][0]) if shared else where(fdec))
     loops = [n for n in A.typer.own_nodes(fdec) if isinstance(n, ast.For) and 'signature' in src(n.iter) and 'parameters' in src(n.iter)]
     binds = [n for n in A.typer.own_nodes(fdec) if isinstance(n, ast.Call) and isinstance(n.func, ast.Attribute) and n.func.attr == 'bind']
     if not loops and binds:
